@@ -117,6 +117,15 @@ class SimConnection(_mpc.Connection):
     _recv = types.FunctionType(_mpc.Connection._recv.__code__, _mpc.Connection._recv.__globals__,
                                "_recv", (_sim_read,))
 
+    def _send_bytes(self, buf):
+        # bookkeeping only (which message is in flight, how much of it is in the pipe); framing is stdlib's
+        pipe = self._pipe
+        self._owner.msg_in_progress = (self, pipe.written if pipe is not None else 0, len(buf))
+        try:
+            return _mpc.Connection._send_bytes(self, buf)
+        finally:
+            self._owner.msg_in_progress = None
+
     def _kernel_close(self):
         pipe = self._pipe
         if pipe is None:
@@ -577,8 +586,11 @@ class SimThread:
         self._w = W()
 
     def run(self):
-        if self._target is not None:
-            self._target(*self._args, **self._kwargs)
+        try:
+            if self._target is not None:
+                self._target(*self._args, **self._kwargs)
+        finally:
+            del self._target, self._args, self._kwargs
 
     def start(self):
         thread_start(self)
